@@ -6,7 +6,7 @@ import vlib
 from vlib import frac_str
 
 CLAIM = {
- "text": "Proof (Lean 4): histograms are association lists bitstring -> rational count; proved for every histogram, index set and bitstring length: removing/marginalising qubits conserves the total; bit-order reversal conserves the total; post-selection splits the total into kept + discarded; aggregation adds the totals (for positive counts, which is what Counter addition keeps); every weighted sum that only depends on the shortened key is preserved by marginalisation, hence the expectation value of a Z-type term is unchanged by removing qubits outside its support; splitting joint frequencies conserves the total (C10 lemma). Grouping: a certificate checker (merged group terms = operator terms as canonical maps, no term twice, every term diagonal in its group's basis) is proved sound: if it accepts, the group-by-group sum equals the term-by-term sum for ANY assignment of term expectation values. The grouping itself comes from openfermion's randomised clique cover and is certified per call. Tie to the code: every Histogram method / post-processing helper is run on random histograms on both sides and compared exactly (Fractions); group_qwc outputs for random operators and seeds are passed through the checker and exp_value_from_measurement_bases is compared with the term-by-term value on exact distributions.",
+ "text": "Proof (Lean 4): histograms are association lists bitstring -> rational count; proved for every histogram, index set and bitstring length: removing/marginalising qubits conserves the total; bit-order reversal conserves the total; post-selection splits the total into kept + discarded; aggregation of ANY number of histograms adds the totals (for positive counts, which is what a histogram holds and Counter addition keeps; theorem aggregate_total); every weighted sum that only depends on the shortened key is preserved by marginalisation, hence the expectation value of a Z-type term is unchanged by removing qubits outside its support; splitting joint frequencies conserves the total (C10 lemma). Grouping: a certificate checker (merged group terms = operator terms as canonical maps, no term twice, every term diagonal in its group's basis) is proved sound: if it accepts, the group-by-group sum equals the term-by-term sum for ANY assignment of term expectation values. The grouping itself comes from openfermion's randomised clique cover and is certified per call. Tie to the code: every Histogram method / post-processing helper is run on random histograms on both sides and compared exactly (Fractions); group_qwc outputs for random operators and seeds are passed through the checker and exp_value_from_measurement_bases is compared with the term-by-term value on exact distributions.",
  "note": "Trusted: Lean kernel + standard axioms; openfermion's group_into_tensor_product_basis_sets (certified per call, not verified); scipy sampler in resampling (totals and key format only). Constructing a Histogram from probabilities with n_shots rounds every bin separately; construction is not among the operations the property lists and is not claimed.",
  "technique": "Lean 4 conservation theorems over association-list histograms + verified certificate checker for groupings + exact correspondence on Histogram operations"}
 
